@@ -81,7 +81,8 @@ Key(s) == cfg.key[s]
 Pass(s, e) == cfg.filt[s] = "all" \/ e % 2 = 1     \* the subscriber's SubscriptionFilter
 
 Configs ==
-  { c \in [key: [Subs -> Keys], filt: [Subs -> {"all", "odd"}], conn: [Subs -> Subs], start: [Inst -> StartModes]] :
+  { c \in [key: [Subs -> Keys], filt: [Subs -> {"all", "odd"}], conn: [Subs -> Subs], start: [Inst -> StartModes],
+           fetch: [Subs -> BOOLEAN]] :     \* fetch[s]: the response plan of s has a nested fetch (runs between the event and writeMu)
        /\ \A s \in Subs : c.key[s] <= s /\ c.conn[s] <= s
        /\ \A s \in Subs : c.key[s] = 1 \/ \E q \in Subs : q < s /\ c.key[q] = c.key[s] - 1
        /\ \A s \in Subs : c.conn[s] = 1 \/ \E q \in Subs : q < s /\ c.conn[q] = c.conn[s] - 1
@@ -298,6 +299,11 @@ SCmdHeartbeat(a) == LET i == Inst0(a) IN
   /\ ac[a].pc = "s.idle" /\ a[1] = "s" /\ SrcReady(a) /\ o.nhb < MaxHB
   /\ Do(a, [ac[a] EXCEPT !.pc = "hb.call", !.nx = "s.idle"], g, [o EXCEPT !.nhb = @ + 1], "h.cmd", 7, i, 0)
 
+\* CloseSubscription(id) for one of the subscriptions the updater reports (Subscriptions()): a client-side terminator issued by the source
+SCmdCloseSub(a, s) == LET i == Inst0(a) IN
+  /\ ac[a].pc = "s.idle" /\ a[1] = "s" /\ SrcReady(a) /\ o.nterm < MaxTerm /\ s \in g.isubs[i]
+  /\ Do(a, [ac[a] EXCEPT !.pc = "cs.call", !.cur = s, !.nx = "s.idle"], g, [o EXCEPT !.nterm = @ + 1], "h.cmd", 10, i, s)
+
 \* Done after Complete/Error is the normal epilogue (free); a bare Done is a terminator of its own
 SCmdDone(a) == LET i == Inst0(a) IN
   /\ SrcIdle(a) /\ SrcReady(a) /\ (ac[a].pc = "s.idle2" \/ o.nsterm < MaxSrcTerm)
@@ -309,6 +315,20 @@ Skip(i) == g.udone[i] \/ g.tctx[i]
 \* the trigger instance the updater of instance i acts on: its own (repaired), or whatever is registered under its id
 \* (an instance that left the registry has no subscribers: isubs[i] = {})
 Target(i) == IF FixUpdater THEN i ELSE g.reg[Key(i)]
+\* cancel() and the trig.cancel record that follows it are two steps of the cancelling goroutine: an updater that was blocked and
+\* got unblocked at the same time may already see the cancelled context although the record is not in the log yet. Only the trace
+\* specification tolerates this (RaceTolerant is overridden there); the model and the generator keep the atomic reading.
+RaceTolerant == FALSE
+CancelPending(i) == \E b \in Actors : ac[b].pc = "td" /\ ac[b].cq = {} /\ i \in ac[b].kq
+MaySkip(i) == Skip(i) \/ (RaceTolerant /\ CancelPending(i))
+
+\* CloseSubscription: lock upd.mu, done/ctx check, UnsubscribeSubscription(id) with upd.mu held
+CsCall(a) == LET i == Inst0(a) IN
+  /\ ac[a].pc = "cs.call" /\ Free(g.updMu[i])
+  /\ \/ /\ MaySkip(i)
+        /\ Do(a, [ac[a] EXCEPT !.pc = ac[a].nx], g, o, "upd.leave", Key(i), 0, 0)
+     \/ /\ ~Skip(i)
+        /\ Do(a, [ac[a] EXCEPT !.pc = "un.begin", !.ret = "s.ret"], [g EXCEPT !.updMu[i] = a], o, "sub.unsub.begin", ac[a].cur, 0, 0)
 
 \* the method returns: unlock upd.mu (the upd.leave hook is deferred after the deferred Unlock, i.e. runs inside the lock)
 SRet(a) == LET i == Inst0(a) IN
@@ -319,9 +339,10 @@ SRet(a) == LET i == Inst0(a) IN
 \* Update -> handleTriggerUpdate: getTrigger (by id), filterSubscriptions [trig.mu], wg.Go per subscriber
 UpCall(a) == LET i == Inst0(a)  k == Key(i)  j == g.reg[k]  e == ac[a].e IN
   /\ ac[a].pc = "up.call" /\ Free(g.updMu[i])
-  /\ IF Skip(i) \/ (~FixUpdater /\ j = 0)
-     THEN Do(a, [ac[a] EXCEPT !.pc = ac[a].nx], g, o, "upd.leave", Key(i), 0, 0)
-     ELSE LET t == {s \in g.isubs[Target(i)] : Pass(s, e)} IN
+  /\ \/ /\ MaySkip(i) \/ (~FixUpdater /\ j = 0)
+        /\ Do(a, [ac[a] EXCEPT !.pc = ac[a].nx], g, o, "upd.leave", Key(i), 0, 0)
+     \/ /\ ~(Skip(i) \/ (~FixUpdater /\ j = 0))
+        /\ LET t == {s \in g.isubs[Target(i)] : Pass(s, e)} IN
           DoAc([x \in Actors |-> IF x = a THEN [ac[a] EXCEPT !.pc = "up.wait", !.fan = t]
                                  ELSE IF x[1] = "u" /\ x[2] \in t /\ x[3] = e THEN [Local0 EXCEPT !.pc = "u.spawned", !.e = e]
                                  ELSE ac[x]],
@@ -349,9 +370,10 @@ CeNext(a, todo, gg, oo, kind) == LET i == Inst0(a)  live == {s \in todo : ~gg.re
 
 CeCall(a, kind) == LET i == Inst0(a)  k == Key(i)  j == g.reg[k] IN
   /\ ac[a].pc = kind \o ".call" /\ Free(g.updMu[i])
-  /\ IF Skip(i) \/ (~FixUpdater /\ j = 0)
-     THEN Do(a, [ac[a] EXCEPT !.pc = ac[a].nx], g, o, "upd.leave", Key(i), 0, 0)
-     ELSE CeNext(a, g.isubs[Target(i)], g, Stale(o, IF kind = "co" THEN "complete" ELSE "error", i, Target(i)), kind)
+  /\ \/ /\ MaySkip(i) \/ (~FixUpdater /\ j = 0)
+        /\ Do(a, [ac[a] EXCEPT !.pc = ac[a].nx], g, o, "upd.leave", Key(i), 0, 0)
+     \/ /\ ~(Skip(i) \/ (~FixUpdater /\ j = 0))
+        /\ CeNext(a, g.isubs[Target(i)], g, Stale(o, IF kind = "co" THEN "complete" ELSE "error", i, Target(i)), kind)
 
 \* complete() / error(): writer.Complete() / writer.Error() [writeMu]
 CeChk(a, kind) == LET s == ac[a].cur IN
@@ -374,9 +396,10 @@ HbNext(a, todo, gg, oo) == LET i == Inst0(a) IN
 
 HbCall(a) == LET i == Inst0(a)  k == Key(i)  j == g.reg[k] IN
   /\ ac[a].pc = "hb.call" /\ Free(g.updMu[i])
-  /\ IF Skip(i) \/ (~FixUpdater /\ j = 0)
-     THEN Do(a, [ac[a] EXCEPT !.pc = ac[a].nx], g, o, "upd.leave", Key(i), 0, 0)
-     ELSE HbNext(a, {s \in g.isubs[Target(i)] : ~g.removed[s] /\ ~g.lastw[s]}, g, Stale(o, "heartbeat", i, Target(i)))
+  /\ \/ /\ MaySkip(i) \/ (~FixUpdater /\ j = 0)
+        /\ Do(a, [ac[a] EXCEPT !.pc = ac[a].nx], g, o, "upd.leave", Key(i), 0, 0)
+     \/ /\ ~(Skip(i) \/ (~FixUpdater /\ j = 0))
+        /\ HbNext(a, {s \in g.isubs[Target(i)] : ~g.removed[s] /\ ~g.lastw[s]}, g, Stale(o, "heartbeat", i, Target(i)))
 
 \* sendHeartbeat [writeMu, re-checks removed]; a failing Heartbeat() unsubscribes
 HbChk(a) == LET s == ac[a].cur IN
@@ -416,9 +439,14 @@ UBegin(a) ==
   /\ ac[a].pc = "u.spawned"
   /\ Do(a, [ac[a] EXCEPT !.pc = "u.begin"], g, o, "sub.update.begin", a[2], a[3], 0)
 
+\* the resolve pipeline of the update reached the nested fetch of the subscriber's plan (fake data source = harness gate)
+UFetch(a) ==
+  /\ ac[a].pc = "u.begin" /\ cfg.fetch[a[2]]
+  /\ Do(a, [ac[a] EXCEPT !.pc = "u.fetch"], g, o, "ds.load", a[2], a[3], 0)
+
 \* writeMu.Lock(); if removed { unlock; return }
 ULock(a) == LET s == a[2] IN
-  /\ ac[a].pc = "u.begin" /\ Free(g.wMu[s])
+  /\ ac[a].pc = (IF cfg.fetch[s] THEN "u.fetch" ELSE "u.begin") /\ Free(g.wMu[s])
   /\ IF g.removed[s]
      THEN Do(a, [ac[a] EXCEPT !.pc = "u.fin"], g, o, "sub.write.locked", s, 1, 0)
      ELSE Do(a, [ac[a] EXCEPT !.pc = "u.locked"], [g EXCEPT !.wMu[s] = a], o, "sub.write.locked", s, 0, 0)
@@ -538,13 +566,14 @@ Micro(a) ==
   CASE a[1] = "c" -> \/ CCmdSub(a[2]) \/ CSub(a[2]) \/ CAdded(a[2]) \/ CCmdUnsub(a[2]) \/ CCmdRmClient(a[2]) \/ CRet(a[2])
                      \/ RcStep(a) \/ UnCall(a) \/ UnBegin(a) \/ TdNext(a) \/ TdClose(a)
     [] a[1] \in {"s", "d"} ->
+                     \/ (\E s \in Subs : SCmdCloseSub(a, s)) \/ CsCall(a)
                      \/ SCmdUpdate(a) \/ SCmdComplete(a) \/ SCmdError(a) \/ SCmdHeartbeat(a) \/ SCmdDone(a)
                      \/ SRet(a) \/ UpCall(a) \/ UpWait(a)
                      \/ CeCall(a, "co") \/ CeChk(a, "co") \/ CeStep(a, "co")
                      \/ CeCall(a, "er") \/ CeChk(a, "er") \/ CeStep(a, "er")
                      \/ HbCall(a) \/ HbChk(a) \/ HbStep(a) \/ DnCall(a) \/ DtBegin(a)
                      \/ UnCall(a) \/ UnBegin(a) \/ TdNext(a) \/ TdClose(a)
-    [] a[1] = "u" -> \/ UBegin(a) \/ ULock(a) \/ UWrite(a) \/ UFlush(a) \/ UFin(a)
+    [] a[1] = "u" -> \/ UBegin(a) \/ UFetch(a) \/ ULock(a) \/ UWrite(a) \/ UFlush(a) \/ UFin(a)
                      \/ UnCall(a) \/ UnBegin(a) \/ TdNext(a) \/ TdClose(a)
     [] a[1] = "g" -> \/ GBegin(a) \/ GStart(a) \/ GOk(a) \/ GInit(a) \/ GFail(a) \/ GWerr(a) \/ GWnext(a) \/ GFin(a)
                      \/ DtBegin(a) \/ TdNext(a) \/ TdClose(a)
@@ -565,9 +594,9 @@ Quiet == AllRest /\ g.rctx /\ ac[SH].pc = "sh.end"
 -----------------------------------------------------------------------------
 (* explicit enabling condition of the next action of an actor (used by the generator; checked against ENABLED) *)
 
-NeedsW(a) == ac[a].pc \in {"td.close", "co.chk", "er.chk", "hb.chk", "g.werr", "u.begin"}
-WOf(a) == IF ac[a].pc = "u.begin" THEN a[2] ELSE ac[a].cur
-NeedsU(a) == ac[a].pc \in {"up.call", "co.call", "er.call", "hb.call", "dn.call"}
+NeedsW(a) == ac[a].pc \in {"td.close", "co.chk", "er.chk", "hb.chk", "g.werr", "u.fetch"} \/ (ac[a].pc = "u.begin" /\ ~cfg.fetch[a[2]])
+WOf(a) == IF a[1] = "u" THEN a[2] ELSE ac[a].cur
+NeedsU(a) == ac[a].pc \in {"up.call", "co.call", "er.call", "hb.call", "dn.call", "cs.call"}
 NeedsR(a) == ac[a].pc \in {"c.sub", "rc.call", "un.begin", "dt.begin", "g.ok", "sh.begin"}
 
 \* blocked on a lock / wait group (not: out of budget)
